@@ -38,7 +38,7 @@ type Kind struct {
 }
 
 var kinds = []string{"http/uri", "http/uri+noconfheaders", "http/uri+preload", "http/uripost", "http/raw", "http/jsonline", "http/jsonline+preload+shared-client", "connect/uri",
-	"http/scenario", "http/scenario+rand", "http/scenario+failing-steps+phout", "grpc/json", "grpc/json+shared-client", "grpc/scenario", "grpc/scenario+failing-steps+phout", "mock/ownership", "http/uri+phout+composite", "schedule/first-use"}
+	"http/scenario", "http/scenario+rand", "http/scenario+failing-steps+phout", "grpc/json", "grpc/json+shared-client", "grpc/scenario", "grpc/scenario+failing-steps+phout", "mock/ownership", "http/uri+phout+composite", "schedule/first-use", "http/uri+datemw"}
 
 func skipType(t reflect.Type) bool {
 	switch t.Name() {
@@ -92,9 +92,15 @@ func httpKind(res *vkit.Result, k Kind) {
 		u, h, b := marker(rec.URI), rec.Header.Get("X-Vid"), marker(string(rec.Body))
 		want := u
 		bad := (h != "" && h != want) || (b != "" && b != want) || want == ""
+		if strings.Contains(k.Name, "datemw") {
+			// the provider's one header/date middleware object stamps the requests of all instances
+			if _, err := http.ParseTime(rec.Header.Get("Date")); err != nil {
+				bad = true
+			}
+		}
 		if bad {
 			incoherent.Add(1)
-			firstBad.CompareAndSwap(nil, fmt.Sprintf("%s %s  X-Vid=%q body=%q", rec.Method, rec.URI, h, rec.Body))
+			firstBad.CompareAndSwap(nil, fmt.Sprintf("%s %s  X-Vid=%q Date=%q body=%q", rec.Method, rec.URI, h, rec.Header.Get("Date"), rec.Body))
 		}
 		w.Header().Set("X-Tok", "tok-"+want)
 		_, _ = w.Write([]byte(`{"tok":"t` + want + `","list":[1,2,3]}`))
@@ -133,6 +139,9 @@ func httpKind(res *vkit.Result, k Kind) {
 	}
 	if strings.Contains(k.Name, "preload") {
 		ammo["preload"] = true
+	}
+	if strings.Contains(k.Name, "datemw") {
+		ammo["middlewares"] = []any{map[string]any{"type": "header/date"}}
 	}
 	gunType := strings.SplitN(k.Name, "/", 2)[0]
 	gun := map[string]any{"type": gunType, "target": tgt.Addr}
@@ -264,7 +273,7 @@ func httpScenarioKind(res *vkit.Result, k Kind) {
 		u, h, b := marker(rec.URI), rec.Header.Get("X-Vid"), marker(string(rec.Body))
 		if u == "" || h != u || b != u {
 			incoherent.Add(1)
-			firstBad.CompareAndSwap(nil, fmt.Sprintf("%s %s  X-Vid=%q body=%q", rec.Method, rec.URI, h, rec.Body))
+			firstBad.CompareAndSwap(nil, fmt.Sprintf("%s %s  X-Vid=%q Date=%q body=%q", rec.Method, rec.URI, h, rec.Header.Get("Date"), rec.Body))
 		}
 		if strings.HasPrefix(rec.URI, "/second") {
 			// the token captured from this shot's own first response belongs to the same row
